@@ -250,6 +250,9 @@ def run(ck, F, E):
     errpos_rules(ck, F, "C13")
     range_rule(ck, F, "C13")
 
+    # ---- (4c) ranges are reported against the text the caller keeps: the tokenizer is given the line itself
+    same_text_rule(ck, F, "C13")
+
     # ---- (5) sibling collectors
     a = get_fn(ck, F, "Tokenizer::remaining_tokens")
     b2 = get_fn(ck, F, "Tokenizer::remaining_tokens_and_ranges")
@@ -268,6 +271,47 @@ def run(ck, F, E):
                    "both collectors are one loop: next, `?`, push (tokens%s)" % "/ranges",
                    "remaining_tokens and remaining_tokens_and_ranges no longer perform the same iteration: %s vs %s" % (sa, sb),
                    a.span)
+
+
+TRANSPORT = ("as_ref", "deref", "as_str", "borrow", "next", "into_iter", "enumerate", "iter", "as_bytes")
+
+
+def text_source(body, op):
+    """(calls other than pure borrowing / iteration through which the text operand is derived, parameters it comes from)"""
+    e = body.expr(op, depth=40)
+    calls = [x[1].split("::")[-1] for x in expr_calls(e)]
+    return [x for x in calls if x not in TRANSPORT], expr_params(e)
+
+
+def same_text_rule(ck, F, P):
+    """Every byte range is an offset into the string the tokenizer was given.  The callers that report ranges
+    (the edit path, the source-file analyzer) must hand the tokenizer, the line-number parser and their own length
+    bookkeeping the very line they keep / were given -- not a trimmed, stripped or re-encoded copy."""
+    n = 0
+    for body in F.bodies.values():
+        if body.crate != "abasic_core" or "::tests::" in body.path or "::test" in body.path.split("::")[-2:][0]:
+            continue
+        if body.self_adt == "abasic_core::tokenizer::Tokenizer":
+            continue
+        sites = [c for c in body.calls() if c.callee.endswith("tokenizer::Tokenizer::new") or
+                 c.callee.endswith("line_number_parser::parse_line_number")]
+        if not sites:
+            continue
+        roots = set()
+        for c in sites:
+            foreign, ps = text_source(body, c.args[0])
+            n += 1
+            ck.require(not foreign and len(ps) == 1,
+                       "%s:TEXT:%s:%s" % (P, body.path.split("::")[-1], c.callee.split("::")[-1]), "ranges refer to the caller's text",
+                       "the text is parameter %s itself (only borrowed / iterated)" % sorted(ps),
+                       "%s passes %s a text derived through %s (from parameters %s) instead of the line it keeps: every reported "
+                       "range and error position is then an offset into a different string than the caller's line" %
+                       (body.path, c.callee.split("::")[-1], foreign or "nothing", sorted(ps)), c.span)
+            roots |= set(ps)
+        ck.require(len(roots) == 1, "%s:TEXT:%s:one-source" % (P, body.path.split("::")[-1]), "ranges refer to the caller's text",
+                   "line-number parser and tokenizer read the same parameter", "%s feeds the line-number parser and the "
+                   "tokenizer from different parameters %s" % (body.path, sorted(roots)), body.span)
+    ck.floor("%s.callers handing text to the tokenizer / line-number parser" % P, n, 4)
 
 
 def errpos_rules(ck, F, P):
